@@ -55,6 +55,16 @@ def gen(rng, i, tier):
             "backup": rng.choice([None, None, "ok", "ok", "clash_input", "clash_output"]), "ops": ops, "fs": rng.choice(["native", "mem"]), "seed": seed}
 
 
+def parse_as(fmt, path, enc, fsys):
+    """what is on disk, read as text in the given encoding and parsed in the format of the file mutate was given (a backup
+    name such as in.ssc.bak carries no format of its own)"""
+    from simfile.sm import SMSimfile
+    from simfile.ssc import SSCSimfile
+    with fsys.open(path, "r", encoding=enc) as f:
+        text = f.read()
+    return (SSCSimfile if fmt == "ssc" else SMSimfile)(string=text)
+
+
 def names(c, sc):
     out = sc.path("out." + c["fmt"]) if c["output"] else None
     bak = {None: None, "ok": sc.path("in." + c["fmt"] + ".bak"), "clash_input": sc.input, "clash_output": out or sc.input}[c["backup"]]
@@ -97,7 +107,7 @@ def impl(c):
             enc = encs[res["open"][1][0]]
             res["out_parses_to"] = G.guarded(lambda: G.sf_obs(simfile.open(out or sc.input, encoding=enc, filesystem=fsys)))
             if bak:
-                res["bak_parses_to"] = G.guarded(lambda: G.sf_obs(simfile.open(bak, encoding=enc, filesystem=fsys)))
+                res["bak_parses_to"] = G.guarded(lambda: G.sf_obs(parse_as(c["fmt"], bak, enc, fsys)))
             before2 = sc.snapshot()
             try:
                 with simfile.mutate(out or sc.input, try_encodings=[enc], filesystem=fsys) as sf2:
